@@ -225,6 +225,7 @@ pub fn base_cfg(rng: &mut SRng, quick: bool, want_byz: bool, want_crash: bool) -
         force_byz_mode: None,
         slow_diss: None,
         crash_after_first_block: None,
+        late_diss: None,
         label: String::new(),
     }
 }
@@ -356,6 +357,39 @@ pub fn run_c02(ctx: &mut Ctx) -> Result<(), String> {
             thin_margin_cfg(&mut rng, &mut cfg);
             cfg.label = "c02-thin-margin".into();
             ctx.count("thin-margin-executions");
+        }
+        if (run_ix as usize + ctx.shard) % 4 == 1 {
+            // directed: split votes before stabilisation. Blocks reach a 40-45 % minority of the stake late, so it
+            // times out and skips while the majority (below 60 %) notarizes: no slot of that period gets a
+            // certificate without the fallback votes; after stabilisation progress must resume
+            let n = *[7usize, 9, 11, 11].choose(&mut rng).unwrap();
+            cfg.ep = make_epoch(&mut rng, &vec![1u64; n], "equal");
+            cfg.byz.clear();
+            cfg.crashes.clear();
+            cfg.force_byz_mode = None;
+            cfg.slow_diss = None;
+            let mut k = (n * 9).div_ceil(20); // ceil(0.45 n): 4 of 7, 5 of 9, 5 of 11 (skip certificates carry the period)
+            let mut pool: Vec<usize> = (0..n).collect();
+            pool.shuffle(&mut rng);
+            if n == 11 && rng.random_bool(0.7) {
+                // neither a notarization nor a skip certificate can form: 2 crashed (18 %), 3 late (27 %), 6 on time
+                // (55 %): only notar-fallback votes certify the blocks, and each child waits for its parent's
+                // notar-fallback certificate
+                k = 3;
+                cfg.crashes = vec![(pool[10], Duration::ZERO), (pool[9], Duration::ZERO)];
+                cfg.label = "c02-split-fallback-only".into();
+            }
+            let late: BTreeSet<usize> = pool[..k].iter().copied().collect();
+            cfg.chaos = chaos_profiles()[0].clone();
+            cfg.t_stable = Duration::from_secs(*[4u64, 7].choose(&mut rng).unwrap());
+            cfg.late_diss = Some((late, Duration::from_millis(*[900u64, 1500, 2500].choose(&mut rng).unwrap())));
+            cfg.delta = Duration::from_millis(*[10u64, 100].choose(&mut rng).unwrap());
+            cfg.diss = DissKind::Trivial;
+            cfg.duration = cfg.t_stable + Duration::from_secs(if ctx.quick() { 22 } else { 34 });
+            if cfg.label != "c02-split-fallback-only" {
+                cfg.label = "c02-split-before-stabilisation".into();
+            }
+            ctx.count("split-before-stabilisation-executions");
         }
         let out = rt.block_on(tokio::task::unconstrained(execute(&cfg, &mut rng)));
         judge_all(ctx, "C02", &cfg, &out);
